@@ -3,3 +3,4 @@ import Driver.Resolve
 import Driver.Sched
 import Driver.Output
 import Driver.Remote
+import Driver.Quote
